@@ -193,18 +193,25 @@ def r_juncture(ctx, g):
                   "(spec/rfc8610_junctures.json) — otherwise underivable text is accepted", floor=10)
     spec = json.load(open(os.path.join(vf.VERIF, "spec", "rfc8610_junctures.json")))
     allowed = {(a["rule"], a["juncture"]): a["reason"] for a in spec["permitted"]}
-    counts = {}
-    for (rname, key, a, b) in g.junctures():
-        n = counts.get((rname, key), 0)
-        counts[(rname, key)] = n + 1
-        k = "%s|%s#%d" % (rname, key, n)
+    # a juncture is identified by the pairs of symbols that can become adjacent across it (terminals as written, rule names; silent
+    # rules and optional parts looked through), not by how the sequence is written: merging two alternatives or factoring a
+    # sub-expression into a silent rule leaves the pairs — and the text that is wrongly accepted — unchanged
+    seen = set()
+    for (rname, key, a, b, pairs) in g.junctures():
         line = g.rules[rname].get("l")
-        ctx.site(rid, k, "cddl.pest", line, {"rule": rname, "juncture": key})
+        ctx.site(rid, "%s|%s" % (rname, key), "cddl.pest", line, {"rule": rname, "juncture": key, "adjacent": ["%s %s" % p for p in pairs]})
         if (rname, key) in allowed:
             continue
-        ctx.violation(rid, k, "cddl.pest", line,
-                      "rule %s: juncture `%s` has no explicit S, so pest skips whitespace/comments there; RFC 8610 "
-                      "allows none at this place" % (rname, key))
+        if not pairs:
+            ctx.incomplete_msg(rid, "rule %s: juncture `%s`: no adjacent symbols derived" % (rname, key))
+        for (x, y) in pairs:
+            k = "%s|%s ~ %s" % (rname, x, y)
+            if k in seen:
+                continue
+            seen.add(k)
+            ctx.violation(rid, k, "cddl.pest", line,
+                          "rule %s: %s can be followed by %s with no explicit S between them (juncture `%s`), so pest skips whitespace/comments "
+                          "there; RFC 8610 allows none at this place" % (rname, x, y, key))
 
 
 def r_children(ctx, g):
